@@ -85,6 +85,14 @@ def Block.levelOk : Block → Prop
   | .heading l _ => 1 ≤ l ∧ l ≤ 6
   | _ => True
 
+theorem runBlocks_levelOk (run : Str) : ∀ b ∈ runBlocks run, b.levelOk := by
+  intro b hb
+  unfold runBlocks at hb
+  split at hb
+  · simp only [List.mem_singleton] at hb
+    subst hb; trivial
+  · cases hb
+
 mutual
 theorem blocks_levelOk (p : Pos → Dom → Bool) (w : Bool) :
     ∀ (t : Dom) (pos : Pos) (lc : LCB), ∀ b ∈ blocks p w pos lc t, b.levelOk
@@ -113,7 +121,7 @@ theorem blocks_levelOk (p : Pos → Dom → Bool) (w : Bool) :
             split at hb
             · simp only [List.mem_singleton] at hb
               subst hb; trivial
-            · exact blocksL_levelOk p w kids _ lc b hb
+            · exact blocksM_levelOk p w kids _ lc [] b hb
           | list ord => simp only []; exact blocksL_levelOk p w kids _ _
           | li =>
             simp only []
@@ -170,6 +178,22 @@ theorem blocksLi_levelOk (p : Pos → Dom → Bool) (w : Bool) :
         · exact blocks_levelOk p w k kp lc b hb
         · cases hb
       · exact blocksLi_levelOk p w ks kp lc b hb
+theorem blocksM_levelOk (p : Pos → Dom → Bool) (w : Bool) :
+    ∀ (ts : List Dom) (kp : Pos) (lc : LCB) (run : Str), ∀ b ∈ blocksM p w kp lc ts run, b.levelOk
+  | [], kp, lc, run => by
+      simp only [blocksM]
+      intro b hb
+      exact runBlocks_levelOk run b hb
+  | k :: ks, kp, lc, run => by
+      simp only [blocksM]
+      intro b hb
+      split at hb
+      · exact blocksM_levelOk p w ks kp lc _ b hb
+      · rw [List.mem_append, List.mem_append] at hb
+        rcases hb with (hb | hb) | hb
+        · exact runBlocks_levelOk run b hb
+        · exact blocks_levelOk p w k kp lc b hb
+        · exact blocksM_levelOk p w ks kp lc [] b hb
 end
 
 /-- the view only reads `hl` at the levels of the heading elements -/
